@@ -692,6 +692,12 @@ def analyse(case: Dict[str, Any], out: str) -> Tuple[Optional[Dict[str, Any]], D
             le0 = len(src) if le0 < 0 else le0
             if s0 == ls0 or src[ls0:s0].strip() or src[e0:le0].strip():
                 continue
+            # ... and (what is left after the repair) the following line has the same indentation and
+            # carries an ignore comment, so the pending insertion ends up strictly inside an ignored line
+            nxt_end = src.find("\n", le0 + 1)
+            nxt = src[le0 + 1 : nxt_end if nxt_end >= 0 else len(src)]
+            if not (IGNORE_RE.search(nxt) and len(nxt) - len(nxt.lstrip(" ")) == s0 - ls0):
+                continue
             for t in txns:
                 for u in t.units:
                     if u["rng"] == (s0, s0):
